@@ -124,18 +124,19 @@ class OWElement(MemoryElement):
 
         data = header_data + elem_data
 
+        # The callback is in place before the write is started, the acknowledgement can arrive at any time after that
+        self._write_finished_cb = write_finished_cb
+
         self.mem_handler.write(self, 0x00,
                                struct.unpack('B' * len(data), data))
 
-        self._write_finished_cb = write_finished_cb
-
     def erase(self, write_finished_cb):
         erase_data = bytes([0xFF] * 112)
+        self._write_finished_cb = write_finished_cb
+
         self.mem_handler.write(self, 0x00,
                                struct.unpack('B' * len(erase_data),
                                              erase_data))
-
-        self._write_finished_cb = write_finished_cb
 
     def update(self, update_finished_cb):
         """Request an update of the memory content"""
